@@ -19,6 +19,10 @@ CLAIMED = {
    text="PointsTable.tla defines Points/Space as a table with named column groups (get by row/column selectors, set, join, cat, repeat, unsqueeze, arithmetic, order-sensitive equality, space product/sub-space/slice); TLC checks the algebraic laws the property names over all small tables, enumerates the whole index universe on a one-axis and a two-axis table and generates random operation histories; every step is executed on real Points objects and TLC compares the recorded result (and the operands before/after) with the table semantics.",
    note="Trusted: TLC; cell ids are distinct integers. Bounded: <= 3 variables of dims 1..2, <= 4 rows (exhaustive index universe), histories <= 10 operations on <= 9 tables, one or two batch axes. Advanced row index + column selection on two batch axes is outside the modelled universe; on one axis its zipped result is the known finding pt_zipped_index.",
    technique="TLA+ table semantics model-checked for its laws + TLC-enumerated index universe and histories + TLC trace validation", ref="5 C12"),
+ "C05": dict(
+   text="Geometry.tla gives every domain expression its denotation In(e, Q) in exact integer arithmetic on homogeneous lattice points (union=or, cut=and-not, product=conjunction, translate/rotate=inverse image, parameter-dependent shapes evaluated with each point's own parameter row); TLC generates the expressions (all of depth<=1 plus random deeper ones), the real _contains is queried on lattice points and TLC compares every bit that is not within tolerance of the boundary; boundary objects must accept their own boundary samples and reject far points.",
+   note="Trusted: TLC, the builder vh/universe.py (AST -> Domain). Bounded universe: shape data quarter-integers in [-3,3]^d, six rational rotations, parameters in {0,1,2}, depth <= 3 (quick) / 4, at most one non-axis rotation per path; points within 2/256 of the boundary are not judged. ShapelyPolygon / TrimeshPolyhedron are not in the universe.",
+   technique="TLA+ denotational oracle evaluated by TLC on recorded membership bits (trace validation) of TLC-generated expressions", ref="5 C05"),
 }
 PENDING_REASON = "check not built yet in this round (design in DESIGN.md section 5); not claimed"
 
